@@ -5,6 +5,7 @@ package main
 import (
 	"fmt"
 	"go/types"
+	"os"
 	"strings"
 	"time"
 
@@ -495,7 +496,20 @@ func (w *Worker) assertion(id string, c *Term) {
 		}
 		return
 	}
+	// the goal is literally one of the path-condition conjuncts: discharged without the solver
+	for _, pcj := range w.pc {
+		if pcj == c {
+			e.mu.Lock()
+			e.res.Asserts++
+			e.res.Folded++
+			e.mu.Unlock()
+			return
+		}
+	}
 	nc := w.tt.Not(c)
+	if debugQueries {
+		fmt.Fprintf(os.Stderr, "[assert %s] size=%d pc=%d\n", id, nc.size, len(w.pc))
+	}
 	t0 := time.Now()
 	var r Result
 	var m map[string]uint64
